@@ -1041,11 +1041,15 @@ theorem stepCandidate_log {a r r' : Raft} {m : Message} {e : Option RaftError}
   · rename_i hm
     split at h
     · cases h; exact .inl h0
-    · exact votes (.inr hm) h
+    · split at h
+      · cases h; exact .inl h0
+      · exact votes (.inr hm) h
   · rename_i hm
     split at h
     · cases h; exact .inl h0
-    · exact votes (.inl hm) h
+    · split at h
+      · cases h; exact .inl h0
+      · exact votes (.inl hm) h
   · cases h; exact .inl h0
 
 /-- **`Raft::step`: every way the logical log can change.**  For a node whose log satisfies the
